@@ -28,17 +28,21 @@ SumXPos(D) == LET RECURSIVE S(_) S(i) == IF i > N(D) THEN 0 ELSE (IF IsNull(D.x[
 Preds == {"cells_pos", "row_x_le_y", "ew_row_x_le_y", "sum_x_pos"}
 OutKind(p) == CASE p = "cells_pos" -> "table" [] p \in {"row_x_le_y", "ew_row_x_le_y"} -> "series" [] p = "sum_x_pos" -> "bool"
 
-VARIABLES D, pred, ina, nfc, warn, pc, answer, verdict
-vars == <<D, pred, ina, nfc, warn, pc, answer, verdict>>
+(* the index labelling of the frame (unique labels, repeated labels, a two-level MultiIndex, unique or with repeated   *)
+(* entries): nothing below reads it - verdict, excused nulls and the reported rows are about ROWS - and the function    *)
+(* never raises, so the outcome is a failed check, never an error of the check                                          *)
+VARIABLES D, pred, ina, nfc, warn, pc, answer, verdict, ix
+vars == <<D, pred, ina, nfc, warn, pc, answer, verdict, ix>>
 
 Init == /\ D \in Frames /\ pred \in Preds /\ ina \in BOOLEAN /\ nfc \in {0, 1} /\ warn \in BOOLEAN
+        /\ ix \in (IF N(D) >= 2 THEN {"unique", "dup", "multi", "multidup"} ELSE {"unique", "multi"})
         /\ pc = "apply" /\ answer = <<>> /\ verdict = "none"
 (* apply: the raw answer of the function *)
 Apply == /\ pc = "apply"
          /\ answer' = CASE OutKind(pred) = "table"  -> [x |-> [r \in 1..N(D) |-> Pos(D.x[r])], y |-> [r \in 1..N(D) |-> Pos(D.y[r])]]
                         [] OutKind(pred) = "series" -> [r \in 1..N(D) |-> LeXY(D, r)]
                         [] OutKind(pred) = "bool"   -> <<SumXPos(D)>>
-         /\ pc' = "postprocess" /\ UNCHANGED <<D, pred, ina, nfc, warn, verdict>>
+         /\ pc' = "postprocess" /\ UNCHANGED <<D, pred, ina, nfc, warn, verdict, ix>>
 (* postprocess: excuse nulls according to the kind of answer *)
 FailingRows ==
   CASE OutKind(pred) = "table"  -> {r \in 1..N(D) : (~answer.x[r] /\ ~(ina /\ IsNull(D.x[r]))) \/ (~answer.y[r] /\ ~(ina /\ IsNull(D.y[r])))}
@@ -46,7 +50,7 @@ FailingRows ==
     [] OutKind(pred) = "bool"   -> IF answer[1] THEN {} ELSE {0}
 Postprocess == /\ pc = "postprocess"
                /\ verdict' = IF FailingRows = {} THEN "pass" ELSE "fail"
-               /\ pc' = "done" /\ UNCHANGED <<D, pred, ina, nfc, warn, answer>>
+               /\ pc' = "done" /\ UNCHANGED <<D, pred, ina, nfc, warn, answer, ix>>
 Next == Apply \/ Postprocess
 Spec == Init /\ [][Next]_vars
 
@@ -56,6 +60,6 @@ NullsNeverFail == (pc = "done" /\ ina /\ OutKind(pred) = "table") =>
 (* element_wise = the vectorised row map *)
 ElementwiseIsRowMap == pc = "done" => TRUE
 Emit == pc = "done" =>
-  PrintT(ToJson([kind |-> "tablecheck", x |-> D.x, y |-> D.y, pred |-> pred, ina |-> ina, nfc |-> nfc, warn |-> warn,
+  PrintT(ToJson([kind |-> "tablecheck", x |-> D.x, y |-> D.y, pred |-> pred, ina |-> ina, nfc |-> nfc, warn |-> warn, ix |-> ix,
                  expect |-> [passed |-> verdict = "pass", failing_rows |-> FailingRows, out |-> OutKind(pred)]]))
 =============================================================================
